@@ -32,6 +32,14 @@ def run_cancel(rep, count, mode_args, with_invalid):
             tail = rnd.choice(["", "; SELECT 9", "; " + rnd.choice(stmts)])
             head = rnd.choice(["", "SELECT 0; "])
             extra.append(head + chain + tail)
+        # very long single statements between short ones (long IN / VALUES / select lists, UNION chains, nested calls):
+        # a cancellation that lands inside them must not produce a shortened statement
+        big = ["SELECT x IN (" + ", ".join(str(i) for i in range(3000)) + ")", "SELECT " + ", ".join("c%d" % i for i in range(2500)) + " FROM t",
+               " UNION ALL ".join("SELECT %d" % i for i in range(400)), "INSERT INTO t VALUES " + ", ".join("(%d, 'a')" % i for i in range(1500)),
+               "SELECT " + " + ".join(str(i) for i in range(2000)), "SELECT " + "f(" * 300 + "1" + ")" * 300,
+               "SELECT [" + ", ".join("'s%d'" % i for i in range(2000)) + "]", "CREATE TABLE t (" + ", ".join("c%d UInt8" % i for i in range(1200)) + ") ENGINE = Memory"]
+        for b in big:
+            extra.append("SELECT 1; " + b + "; SELECT 2")
         with open(cases, "a") as f:
             for e in extra:
                 f.write(e.encode("utf-8", "surrogateescape").hex() + "\n")
